@@ -37,6 +37,10 @@ pub struct SCall {
 pub struct SchedCase {
     pub src: IoSrc,
     pub calls: Vec<SCall>,
+    /// transfer chunking / EINTR of the stream under the long-lived reader (legal, transparent):
+    /// with split transfers a transient fault can land in the middle of a sample
+    #[serde(default = "crate::scenario::IoKnobs::plain")]
+    pub io: crate::scenario::IoKnobs,
 }
 
 fn sample_code(o: &SampleOutcome) -> String {
@@ -132,10 +136,12 @@ fn qkind(q: &Q) -> &'static str {
     }
 }
 
-fn open_player(img: &[u8], split: Option<usize>) -> Option<(Player, Vec<crate::simdisk::SimRef>)> {
+fn open_player(img: &[u8], split: Option<usize>, io: &crate::scenario::IoKnobs) -> Option<(Player, Vec<crate::simdisk::SimRef>)> {
+    let knobs = |sim: &crate::simdisk::SimRef| sim.borrow_mut().set_transparent(io.chunking, io.intr_ppm, io.io_seed);
     match split {
         None => {
             let sim = Sim::shared(SimDisk::from_bytes(img.to_vec()));
+            knobs(&sim);
             match Player::open(&sim, 0, img.len() as u64, 0) {
                 Opened::Ok(p) => Some((p, vec![sim])),
                 _ => None,
@@ -143,11 +149,13 @@ fn open_player(img: &[u8], split: Option<usize>) -> Option<(Player, Vec<crate::s
         }
         Some(l) => {
             let isim = Sim::shared(SimDisk::from_bytes(img[..l].to_vec()));
+            knobs(&isim);
             let init = match Player::open(&isim, 0, l as u64, 0) {
                 Opened::Ok(p) => p,
                 _ => return None,
             };
             let ssim = Sim::shared(SimDisk::from_bytes(img[l..].to_vec()));
+            knobs(&ssim);
             let f = crate::simdisk::SimFile::new(&ssim);
             let slen = (img.len() - l) as u64;
             match guard(|| init.reader.read_fragment_header(f, slen)) {
@@ -212,7 +220,7 @@ fn gen_calls(r: &mut Rng, tracks: &[(u32, u32)], n: usize) -> Vec<SCall> {
             7 => {
                 // a read that fails in the middle (transient fault), then the same read again
                 let q = Q::ReadSample { t, k: pick_id(r, c) };
-                v.push(SCall { q: q.clone(), fault_at: Some(r.below(3) as u32) });
+                v.push(SCall { q: q.clone(), fault_at: Some(if r.chance(1, 2) { r.below(3) } else { r.below(24) } as u32) });
                 if r.chance(1, 2) {
                     v.push(SCall { q, fault_at: None });
                 }
@@ -257,7 +265,7 @@ impl Prop for C15 {
             IoSrc::Seed(s) => build(s).bytes,
         };
         let mut tracks = Vec::new();
-        if let Some((mut p, _)) = open_player(&img, None) {
+        if let Some((mut p, _)) = open_player(&img, None, &crate::scenario::IoKnobs::plain()) {
             for t in p.track_ids() {
                 if let Ok(Ok(c)) = p.sample_count(t) {
                     tracks.push((t, c));
@@ -270,7 +278,8 @@ impl Prop for C15 {
             _ => 72 + r.usize_below(228),
         };
         let calls = gen_calls(&mut r, &tracks, n);
-        SchedCase { src, calls }
+        let io = if r.chance(1, 2) { crate::scenario::IoKnobs::plain() } else { crate::scenario::IoKnobs::gen(&mut r) };
+        SchedCase { src, calls, io }
     }
     fn eval(case: &SchedCase, st: &mut Stats) -> Vec<Violation> {
         let prop = "C15";
@@ -297,11 +306,11 @@ impl Prop for C15 {
         };
         st.inc(&format!("image.{}", match &case.src { IoSrc::Mux(_) => "mux", IoSrc::Seed(s) => s.class() }));
         // ---- parsing twice gives equal structures
-        let Some((mut p, sims)) = open_player(&img, split) else {
+        let Some((mut p, sims)) = open_player(&img, split, &case.io) else {
             st.inc("image_does_not_open");
             return out;
         };
-        if let Some((p2, _)) = open_player(&img, split) {
+        if let Some((p2, _)) = open_player(&img, split, &case.io) {
             let (a, b) = (&p.reader, &p2.reader);
             let mut ids_a: Vec<u32> = a.tracks().keys().copied().collect();
             let mut ids_b: Vec<u32> = b.tracks().keys().copied().collect();
@@ -343,7 +352,7 @@ impl Prop for C15 {
             let want = match memo.get(&c.q) {
                 Some(w) => w.clone(),
                 None => {
-                    let w = match open_player(&img, split) {
+                    let w = match open_player(&img, split, &crate::scenario::IoKnobs::plain()) {
                         Some((mut fresh, _)) => ask(&mut fresh, &c.q),
                         None => "unopenable".into(),
                     };
@@ -371,6 +380,7 @@ impl Prop for C15 {
             }
         }
         st.distinct.insert(mix(shape, case.calls.len().min(16) as u64));
+        st.probe("probe.split_transfers_under_long_lived_reader", case.io.chunking != crate::simdisk::Chunking::Full);
         for s in &sims {
             let s = s.borrow();
             st.case_digest = mix(st.case_digest, s.digest);
@@ -398,6 +408,11 @@ impl Prop for C15 {
             }
             size /= 2;
         }
+        if c.io != crate::scenario::IoKnobs::plain() {
+            let mut d = c.clone();
+            d.io = crate::scenario::IoKnobs::plain();
+            v.push(d);
+        }
         for i in 0..n {
             if c.calls[i].fault_at.is_some() {
                 let mut d = c.clone();
@@ -408,7 +423,7 @@ impl Prop for C15 {
         v
     }
     fn rule() -> String {
-        "seeded reader schedules (<= 300 calls of read_sample / sample_offset / sample_count / all track accessors / movie accessors / metadata; ids biased to 0,1,2,count-1,count,count+1,u32::MAX; unknown track ids; immediate repeats, A-B-A patterns, descending sweeps) over muxer-made, canned and packager images (fragmented ones also as init+segment), with transient hard stream faults inside some read_sample calls; every non-faulted call must equal the answer of a fresh reader asked once, in particular the call right after a faulted one; the same muxing history run twice must give identical bytes and the same bytes opened twice equal structures; distinct_nontrivial = distinct schedule shapes (sequence of call kinds with repeats collapsed, bucketed length)".into()
+        "seeded reader schedules (<= 300 calls of read_sample / sample_offset / sample_count / all track accessors / movie accessors / metadata; ids biased to 0,1,2,count-1,count,count+1,u32::MAX; unknown track ids; immediate repeats, A-B-A patterns, descending sweeps) over muxer-made, canned and packager images (fragmented ones also as init+segment), with transient hard stream faults inside some read_sample calls (the stream under the long-lived reader may split transfers or report EINTR, so a fault can land in the middle of a sample; fresh readers use a plain stream); every non-faulted call must equal the answer of a fresh reader asked once, in particular the call right after a faulted one; the same muxing history run twice must give identical bytes and the same bytes opened twice equal structures; distinct_nontrivial = distinct schedule shapes (sequence of call kinds with repeats collapsed, bucketed length)".into()
     }
     fn assumptions() -> Vec<String> {
         vec![
